@@ -383,6 +383,23 @@ Section OverlayAll.
     end.
 End OverlayAll.
 
+(* ---- large files: a SPARSE description of a file's bytes (for the correspondence) ----
+   d_content is a list of bytes of any length; a test file of several GiB is described by its size
+   and a few marker strings (the earlier marker wins where two overlap), zero elsewhere.
+   [sp_read] = the bytes a reader sees in a window; the copy of the file has the same size and
+   the same bytes in every window. *)
+Fixpoint sp_byte (marks : list (N * list N)) (off : N) : N :=
+  match marks with
+  | [] => 0
+  | (o, b) :: r => if (o <=? off) && (off <? o + N.of_nat (length b)) then nth (N.to_nat (off - o)) b 0
+                   else sp_byte r off
+  end.
+Fixpoint sp_read (marks : list (N * list N)) (size off : N) (len : nat) : list N :=
+  match len with
+  | O => []
+  | S l => if off <? size then sp_byte marks off :: sp_read marks size (off + 1) l else []
+  end.
+
 (* two landing paths collide when one is a prefix of the other; [apart]: they do not *)
 Definition apart (L1 L2 : list (list N)) : Prop :=
   (forall r, L2 <> L1 ++ r) /\ (forall r, L1 <> L2 ++ r).
